@@ -104,7 +104,33 @@ def domain_lists(m, method):
 _LAST = {}
 
 
+def execute_domain_only(case):
+    """family A8: only the exception type matters (C02): building the design and searching must end in a design or a ValueError"""
+    world = World(case["world"], HMIN, HMAX, *LIMITS[case["world"].get("limits", "narrow")])
+    log = worlds.begin(world)
+    out, exc = "design", None
+    so = sys.stdout
+    sys.stdout = io.StringIO()
+    try:
+        try:
+            m = scenarios.build_manager(case["method"], geo=case["geo"], hmax=HMAX, hmin=HMIN, cont=bool(case.get("cont")),
+                                        max_eft=world.max_allow, min_eft=world.min_allow)
+            m.find_design()
+        except ValueError as e:
+            out, exc = "ValueError", str(e)
+        except core.HarnessError:
+            raise
+        except BaseException as e:  # noqa: BLE001
+            out, exc = f"exc:{type(e).__name__}", str(e)
+    finally:
+        sys.stdout = so
+        worlds.end()
+    return {"outcome": out, "exc": exc, "queries": log.queries, "ghe_inits": [], "gfunc_calls": [], "wlists": [], "world": world}
+
+
 def execute(case):
+    if case.get("domain_only"):
+        return execute_domain_only(case)
     m = manager_for(case)
     _LAST["m"] = m
     method = case["method"]
@@ -214,6 +240,13 @@ def judge(case, obs):
     cap, cont = case.get("cap"), bool(case.get("cont"))
     world = obs["world"]
     V = {p: [] for p in ("C01", "C02", "C05", "C12", "C20")}
+    if case.get("domain_only"):
+        out = obs["outcome"]
+        if out.startswith("exc:"):
+            V["C02"].append(core.viol("wrong_exception_type", case, observed=out, expected="design or ValueError",
+                                      msg=f"{method} on {case['geo']}: {out[4:]}: {obs['exc']} (a spacing window that admits no whole number of rows must end in ValueError)",
+                                      method=method, exc=out[4:], empty_window=True))
+        return V, ("empty_or_narrow_window_" + ("error" if out != "design" else "design"))
     if kind == "rw":
         return judge_rowwise(case, obs, V)
     wc = classify_world(case, obs)
@@ -621,6 +654,19 @@ def expand(chunk):
                     yield {"fam": fam, "method": "rowwise", "geo": geo, "cap": None, "cont": cont,
                            "flow": chunk.get("flow", "borehole"),
                            "world": {"kind": "drill", "T": T, **WVARS[chunk.get("wv", 0)]}, "need_count": c, "level": lvl}
+    elif fam == "A8":
+        # narrow spacing windows on a lattice of lot sizes: many admit no whole number of rows (empty candidate list)
+        for L in chunk["sides"]:
+            for W in chunk["sides2"]:
+                for bmin, bmax in ((5.0, 6.1), (3.4, 3.6), (6.0, 6.5), (2.5, 2.6), (7.5, 8.0), (3.0, 3.0)):
+                    if method == "rectangle":
+                        geo = {"length": L, "width": W, "b_min": bmin, "b_max": bmax}
+                    elif method == "nearsquare":
+                        geo = {"length": L, "b": bmax}
+                    else:
+                        geo = {"length": L, "width": W, "b_min": bmin, "b_max_x": bmax, "b_max_y": bmax}
+                    yield {"fam": fam, "method": method, "geo": geo, "cap": None, "cont": chunk.get("cont", False), "flow": "borehole",
+                           "world": {"kind": "drill", "T": 3.0 * HMAX * 0.999 - IRR, **WVARS[0]}, "domain_only": True}
     else:
         raise core.HarnessError(f"unknown family {fam}")
 
